@@ -459,3 +459,41 @@ Definition exit_handler (sig : nat) (st : gstate) : gstate :=
     let (l, fail) := first_stage (g_servers st) in
     if fail then mkGS l false ((128 + sig) :: g_exits st)   (* SystemExit leaves before flag.append *)
     else mkGS l true (g_exits st).
+
+(* ---- utils.Wrapper with several tasks (one call driven from more than one task) ------------------- *)
+(* __enter__: raise the sticky error if there is one, else _tasks.add(current task);
+   __exit__: _tasks.discard(current task) (then raise the error if there is one);
+   cancel(err): _error := err; task.cancel() for every task in _tasks *)
+Inductive wop := WEnter (t : nat) | WExit (t : nat) | WCancel.
+
+Record wrap := mkWrap {
+  wtasks : list nat;         (* Wrapper._tasks (a set) *)
+  werror : bool;             (* Wrapper._error is set *)
+  wcancelled : list nat;     (* tasks that received task.cancel() from Wrapper.cancel, in order *)
+  wrefused : list nat        (* tasks whose __enter__ raised the sticky error *)
+}.
+
+Definition wmem (t : nat) (l : list nat) : bool := existsb (Nat.eqb t) l.
+Definition wadd (t : nat) (l : list nat) : list nat := if wmem t l then l else l ++ [t].
+Definition wdiscard (t : nat) (l : list nat) : list nat := filter (fun u => negb (u =? t)) l.
+
+Definition wstep (w : wrap) (o : wop) : wrap :=
+  match o with
+  | WEnter t => if werror w then mkWrap (wtasks w) true (wcancelled w) (wrefused w ++ [t])
+                else mkWrap (wadd t (wtasks w)) false (wcancelled w) (wrefused w)
+  | WExit t => mkWrap (wdiscard t (wtasks w)) (werror w) (wcancelled w) (wrefused w)
+  | WCancel => mkWrap (wtasks w) true (wcancelled w ++ wtasks w) (wrefused w)
+  end.
+
+Definition wrun (ops : list wop) : wrap := fold_left wstep ops (mkWrap [] false [] []).
+
+(* what ONE task may rely on, whatever the other tasks do: it is guarded from its own __enter__ (that did
+   not raise) to its own __exit__ *)
+Definition wspec_step (t : nat) (st : bool * bool) (o : wop) : bool * bool :=
+  let (err, inside) := st in
+  match o with
+  | WEnter u => if u =? t then (err, inside || negb err) else st
+  | WExit u => if u =? t then (err, false) else st
+  | WCancel => (true, inside)
+  end.
+Definition wspec (t : nat) (ops : list wop) : bool := snd (fold_left (wspec_step t) ops (false, false)).
